@@ -436,6 +436,8 @@ type Variant struct {
 	Tokens [][]byte // multi-byte units of this format (delimiters, escape pairs)
 	// MultiLine: records span several lines that alias the bufio buffer: more large inputs
 	MultiLine bool
+	// OwnProlog: the generator writes its own XML prolog and wants its inputs mostly undamaged
+	OwnProlog bool
 	// Hier: hierarchical declarations (children, multi-line envelopes before a target): C16 picks these more often
 	Hier bool
 	// Fixed: the input is a fixed sample; C16 uses it undamaged and with more fault positions
@@ -712,6 +714,42 @@ func Variants() []Variant {
 				}})
 		}
 	}
+	// XML documents that DECLARE a single-byte encoding (encoding/xml then switches to a charset
+	// reader in the middle of the stream), several lines long, with records that fail to transform
+	// (error texts carry "near line N") and sometimes a malformed tail
+	for _, f := range vh.Fixtures() {
+		if f.Format != "xml" {
+			continue
+		}
+		for _, enc := range []string{"ISO-8859-1", "windows-1252"} {
+			enc := enc
+			out = append(out, Variant{Name: "xml+encdecl-" + strings.ToLower(enc), FmtIdx: 6, Schema: f.Schema, OwnProlog: true,
+				Gen: func(r *vh.Rng, n int) []byte {
+					var sb strings.Builder
+					fmt.Fprintf(&sb, "<?xml version=\"1.0\" encoding=\"%s\"?>\n<r>\n", enc)
+					bad := r.Pick(n + 1)
+					for i := 0; i <= n; i++ {
+						b := fmt.Sprint(r.Between(1, 999))
+						if i == bad || r.Chance(0.2) {
+							b = r.PickStr("x1", "1.5", "--", "")
+						}
+						fmt.Fprintf(&sb, "<n><a>%s</a>\n  <b>%s</b><c>caf\xe9 %s</c></n>\n", r.PickStr("x", "abc", "Q9"), b, r.PickStr("w", "zz", ""))
+						if r.Chance(0.3) {
+							sb.WriteString("\n\n")
+						}
+					}
+					switch r.Pick(4) {
+					case 0:
+						sb.WriteString("<n><a>t</a><b>7</b>\n") // malformed tail: unclosed
+					case 1:
+						sb.WriteString("</r>\n<oops")
+					default:
+						sb.WriteString("</r>\n")
+					}
+					return []byte(sb.String())
+				}})
+		}
+	}
 	out = append(out, hierarchicalVariants()...)
 	out = append(out, sampleVariants()...)
 	return out
@@ -922,7 +960,10 @@ func GenInput2(r *vh.Rng, v Variant) Input {
 	}
 	// XML: unusual but legal prologs (version 1.1, standalone, encoding labels); whatever the
 	// decoder makes of them must not depend on the delivery schedule
-	if v.FmtIdx == 6 && r.Chance(0.35) {
+	if v.OwnProlog && r.Chance(0.7) {
+		return Input{In: in, Kind: size + "/xml-encoding-declared"}
+	}
+	if v.FmtIdx == 6 && !v.OwnProlog && r.Chance(0.35) {
 		pro := r.PickStr(`<?xml version="1.1"?>`, `<?xml version='1.1' encoding='utf-8'?>`, `<?xml version="1.0" encoding="UTF-8" standalone="yes"?>`,
 			`<?xml version="1.0" encoding="ISO-8859-1"?>`, `<?xml version="1.1" standalone="no"?>`+"\n", `<?xml version="1.0"?>`+"\r\n<!-- c -->", `<?xml  version = "1.1" ?>`)
 		off := 0
